@@ -48,6 +48,7 @@ def SeqGen.next (g : SeqGen) : Float × SeqGen :=
       (p, { g with state := s, param := p, i := i + 1 })
     | 1 => (-g.param, { g with i := i + 1 })
     | _ => (0.0009765625, { g with i := i + 1 })
+  | 5 => (if i % 2 == 0 then g.param else -g.param, { g with i := i + 1 })
   | _ =>
     if i == 0 then (g.param * 16777216.0, { g with i := i + 1 }) else (g.param, { g with i := i + 1 })
 
@@ -236,6 +237,18 @@ def genFeedA {F : Type} [FloatLike F] [Widen F Float] (e : AEnt F) (g : SeqGen) 
     let (x, g') := g.next
     genFeedA (e.add (Widen.down x : F)) g' n
 
+/-- left fold of `nreg` fresh states of `k` generated values each into the long-lived state `acc` -/
+def foldFeedA {F : Type} [FloatLike F] [Widen F Float] (acc : AEnt F) (g : SeqGen) (k : Nat) : Nat → AEnt F
+  | 0 => acc
+  | n + 1 =>
+    let rec fill (r : AEnt F) (g : SeqGen) : Nat → AEnt F × SeqGen
+      | 0 => (r, g)
+      | m + 1 =>
+        let (x, g') := g.next
+        fill (r.add (Widen.down x : F)) g' m
+    let (r, g') := fill (⟨KEnt.empty, KEnt.empty⟩ : AEnt F) g k
+    foldFeedA ⟨acc.s1.merge r.s1, acc.s2.merge r.s2⟩ g' k n
+
 partial def aInterp {F : Type} [FloatLike F] [Widen F Float] (toks : List String) (impl : List (List String))
     (st : ARun F) : Option (ARun F) :=
   match toks with
@@ -257,6 +270,12 @@ partial def aInterp {F : Type} [FloatLike F] [Widen F Float] (toks : List String
       let id ← parseNat? id; let seed ← parseNat? seed; let param ← parseF64? param; let n ← parseNat? n
       match st.stack with
       | e :: es => aInterp rest impl { st with stack := genFeedA e (SeqGen.new id seed.toUInt64 param) n :: es }
+      | [] => none
+  | "L" :: id :: seed :: param :: nreg :: k :: rest => do
+      let id ← parseNat? id; let seed ← parseNat? seed; let param ← parseF64? param
+      let nreg ← parseNat? nreg; let k ← parseNat? k
+      match st.stack with
+      | e :: es => aInterp rest impl { st with stack := foldFeedA e (SeqGen.new id seed.toUInt64 param) k nreg :: es }
       | [] => none
   | "d" :: rest =>
       match st.stack with
